@@ -306,13 +306,18 @@ def FailsWithinTimeout (cfg : Cfg) (log : Log) : Prop := failsWithinTimeoutB cfg
 /-! ### the connection state becomes visible -/
 
 /-- a detected disconnect (a `recv` that reports the closed connection) is followed by the update
-`is_connected = false` before the detecting call returns -/
+`is_connected = false` before the detecting call returns — unless ANOTHER caller drops the connection first
+(closeConnection after a failed identification runs without the communicator lock): then that caller has to announce it
+(`closedVisibleB`) -/
 def stateVisibleB (log : Log) : Bool :=
   allBelow log.length fun i =>
     match evAt log i with
     | some (.recv c .closed) =>
       anyBetween i log.length fun j =>
-        (evAt log j == some (.isconn c false)) && allBetween i j fun m => !isRetOf c (evAt log m)
+        (match evAt log j with
+         | some (.isconn _ false) => true
+         | some (.hclose c') => !(c' == c)
+         | _ => false) && allBetween i j fun m => !isRetOf c (evAt log m)
     | _ => true
 
 def StateVisible (log : Log) : Prop := stateVisibleB log = true
